@@ -280,7 +280,7 @@ func (p *Prog) creatorsRule(r *Report, only ...string) {
 					// the positive alternative must be guarded by WasAutomatic() == true
 					g := false
 					for _, gd := range pos.cond {
-						if n, _, _, _ := methodCall(deref(gd.Cond)); n == "WasAutomatic" && gd.Pol {
+						if automaticGuard(gd) {
 							g = true
 						}
 					}
@@ -414,7 +414,7 @@ func ruleP17StopFallback(p *Prog, r *Report) {
 			r.check(okd && mins.isConst() && mins.C == 1440, rule, key+":amount", p.instrPos(c), "shift is +1440 minutes", "the shift for yesterday's record is not +1440 minutes")
 			auto, yest := false, false
 			for _, g := range guardsOf(c.Block()) {
-				if nm, _, _, _ := methodCall(deref(g.Cond)); nm == "WasAutomatic" && g.Pol {
+				if automaticGuard(g) {
 					auto = true
 				}
 				if a, b, ok := dateEqGuard(g); ok && g.Pol {
@@ -438,7 +438,10 @@ func ruleP17StopFallback(p *Prog, r *Report) {
 	p.creatorsRule(r, "Stop")
 	// WasAutomatic() is true only when neither --date nor --time was given
 	wa := p.method("klog/app/cli/util", "AtDateAndTimeArgs", "WasAutomatic")
-	if r.anchorFn(rule, wa, "WasAutomatic") {
+	if wa == nil && p.automaticInline(run) {
+		// the test written out in stop itself (checked where it guards the fallback)
+		r.ok(rule, "WasAutomatic#inline", p.pos(run.Pos()), "automatic means: neither --date nor --time given (written out in stop)")
+	} else if r.anchorFn(rule, wa, "WasAutomatic") {
 		for i, ret := range returnsOf(wa) {
 			alts, ok := truthAlts(retResult(ret, 0), 0)
 			good := ok && len(alts) > 0
@@ -661,8 +664,23 @@ func ruleP04Steps(p *Prog, r *Report) {
 	// pause: initial step and loop step
 	if run := mut["Pause"]; run != nil {
 		nInit, nLoop := 0, 0
+		cands := withAnons(run)
+		// a step written as a method of the command and passed as a method value
 		for _, f := range withAnons(run) {
-			if len(f.Params) != 1 || typeNameOf(f.Params[0].Type()) != "Reconciler" {
+			eachInstr(f, func(in ssa.Instruction) {
+				if mc, ok := in.(*ssa.MakeClosure); ok {
+					if t := boundTarget(mc.Fn.(*ssa.Function)); t != nil && t != mc.Fn && t.Signature.Recv() != nil {
+						cands = append(cands, t)
+					}
+				}
+			})
+		}
+		for _, f := range cands {
+			np := len(f.Params)
+			if f.Signature.Recv() != nil {
+				np--
+			}
+			if np != 1 || typeNameOf(f.Params[len(f.Params)-1].Type()) != "Reconciler" {
 				continue
 			}
 			rcs, others := returnedReconcilerCalls(f)
@@ -1141,4 +1159,49 @@ func fieldAddrOfLoad(v ssa.Value) (*ssa.FieldAddr, bool) {
 	}
 	fa, ok := u.X.(*ssa.FieldAddr)
 	return fa, ok
+}
+
+// automaticGuard: the guard says "date and time were both chosen automatically" — the accessor
+// WasAutomatic() is true, or the same test written out (--date and --time both absent).
+func automaticGuard(gd Guard) bool {
+	c := deref(gd.Cond)
+	if n, _, _, _ := methodCall(c); n == "WasAutomatic" {
+		return gd.Pol
+	}
+	if !gd.Pol {
+		return false
+	}
+	return automaticValue(c)
+}
+
+func automaticValue(c ssa.Value) bool {
+	alts, ok := truthAlts(c, 0)
+	if !ok || len(alts) != 1 {
+		return false
+	}
+	hasDate, hasTime := false, false
+	for _, g := range alts[0] {
+		if x, isNil, ok := nilFact(g); ok && isNil {
+			switch tag, _ := fieldTagOfLoad(x); tag {
+			case "date":
+				hasDate = true
+			case "time":
+				hasTime = true
+			}
+		}
+	}
+	return hasDate && hasTime
+}
+
+// automaticInline: run keeps that written-out test in a boolean of its own.
+func (p *Prog) automaticInline(run *ssa.Function) bool {
+	found := false
+	eachInstr(run, func(in ssa.Instruction) {
+		if ph, ok := in.(*ssa.Phi); ok && automaticValue(ph) {
+			if bt, isB := ph.Type().Underlying().(*types.Basic); isB && bt.Kind() == types.Bool {
+				found = true
+			}
+		}
+	})
+	return found
 }
